@@ -94,16 +94,26 @@ def correspondence(ctx):
             # scattered field in the polarisation frame incl. the large-rho cutoff
             npts = int(rng.integers(3, 10))
             calc, args = rand_calc(rng, quad_npts=npts, interpolate_integrals=False)
-            krho = float(rng.choice([rng.uniform(0, 3.9 * npts), 3.9 * npts, rng.uniform(3.9 * npts, 8 * npts)]))
+            j_ = i // 6
+            krho = [float(rng.uniform(0, 3.9 * npts)), 3.9 * npts, float(rng.uniform(3.9 * npts, 8 * npts)), float(rng.uniform(0, 3.9 * npts))][j_ % 4]
             phi = float(rng.uniform(0, 2 * math.pi))
             i0 = calc._direct_eval_mielens_i_n(np.array([krho]), n=0)[0]
             i2 = calc._direct_eval_mielens_i_n(np.array([krho]), n=2)[0]
 
+            # the point is handed over TOGETHER WITH others, beyond and inside the cutoff, at a scheduled position of the call
+            # (also AFTER points beyond the cutoff): its value is its own whatever else the call contains
+            others_k = [float(rng.uniform(3.9 * npts, 8 * npts)), float(rng.uniform(0, 3.9 * npts)), float(rng.uniform(3.9 * npts, 8 * npts)), float(rng.uniform(0, 3.9 * npts))]
+            others_p = [float(rng.uniform(0, 2 * math.pi)) for _ in others_k]
+            nother = [4, 2, 3, 0, 1][(j_ // 4) % 5]
+            pos = max(0, nother - (j_ // 20) % 2)
+            ks = others_k[:nother][:pos] + [krho] + others_k[:nother][pos:]
+            ps = others_p[:nother][:pos] + [phi] + others_p[:nother][pos:]
+
             def call():
-                ex, ey = calc.calculate_scattered_field(np.array([krho]), np.array([phi]))
-                return cx(ex[0]) + cx(ey[0])
+                ex, ey = calc.calculate_scattered_field(np.array(ks), np.array(ps))
+                return cx(ex[pos]) + cx(ey[pos])
             ctx.corr("calculate_scattered_field", "mielensscattered %d %s %s %s %s" % (npts, f2b(krho), f2b(phi), fl(cx(i0)), fl(cx(i2))),
-                     impl_call(call), tol=1e-12, atol=1e-15, inputs=dict(npts=npts, krho=krho, beyond_cutoff=bool(krho >= 3.9 * npts)))
+                     impl_call(call), tol=1e-12, atol=1e-15, inputs=dict(npts=npts, krho=krho, beyond_cutoff=bool(krho >= 3.9 * npts), points_in_call=nother + 1, position=pos))
         elif k == 3:
             # interpolate_integrals == 'check': which evaluation path runs
             deg = int(rng.integers(4, 40))
@@ -205,6 +215,26 @@ def search(ctx):
                           dict(kind="cutoff", krho=391.0, mielens=abs(a[0]), lens=abs(b[0])))
     except Exception as ex:
         ctx.notes.append("cutoff probe raised %r" % (ex,))
+    # a detector that MIXES points inside and beyond the cutoff (a large field of view, a list with a few far points), the far ones
+    # first, in the middle, last: the values inside equal those of the same points computed without the far ones, for both variants
+    try:
+        scm = Sphere(n=1.59, r=0.5, center=(0.3, -0.2, 4.0))
+        near = np.array([[0.3 + 1.5 * math.cos(a), -0.2 + 1.5 * math.sin(a)] for a in (0.2, 1.1, 2.3, 3.3, 4.4, 5.6)])
+        far = np.array([[0.3 + 395.0 / K, -0.2], [0.3, -0.2 - 420.0 / K], [0.3 - 500.0 / K, -0.2 + 30.0]])
+        for thn, mkm in (("MieLens", lambda: MieLens(lens_angle=0.8)), ("AberratedMieLens(0)", lambda: AberratedMieLens(spherical_aberration=0.0, lens_angle=0.8))):
+            alone = calc_field(detector_points(x=near[:, 0], y=near[:, 1], z=0.0), scm, illum_polarization=(0.6, 0.8), theory=mkm(), **opt).transpose('point', 'vector').values
+            for order, idx in (("far points first", [6, 7, 8, 0, 1, 2, 3, 4, 5]), ("far points in between", [0, 6, 1, 2, 7, 3, 4, 8, 5]), ("far points last", [0, 1, 2, 3, 4, 5, 6, 7, 8])):
+                allp = np.vstack([near, far])[idx]
+                ctx.tried("mixed-detector", (thn, order))
+                mixed = calc_field(detector_points(x=allp[:, 0], y=allp[:, 1], z=0.0), scm, illum_polarization=(0.6, 0.8), theory=mkm(), **opt).transpose('point', 'vector').values
+                got = np.array([mixed[idx.index(j)] for j in range(6)])
+                dev = float(np.abs(got - alone).max() / np.abs(alone).max())
+                if not (dev <= 1e-12):
+                    ctx.violation("C08:mixed-detector:%s" % thn, "%s on a detector with 6 points inside and 3 beyond the cutoff (%s): the inside values differ from those of the same 6 points alone by %.3g (relative)" % (thn, order, dev),
+                                  dict(kind="mixed-detector", theory=thn, order=order, points=allp.tolist()))
+                    break
+    except Exception as ex:
+        ctx.violation("C08:raises:mixed-detector:%s" % type(ex).__name__, "mixed detector raised %r" % (ex,), dict(kind="raises"))
     n = ctx.n(24, 300)
     for i in range(n):
         try:
